@@ -18,8 +18,21 @@ claim("C18", "other",
       "Trusted: callee family classification; user getters do not allocate on the indicator's behalf; transient allocation in fmt/serde is not state. The static bincode size formula (G4) is added once the symbolic constructor evaluation exists.",
       "type grammar + call-graph reachability of allocating callees + buffer-store discipline", "DESIGN.md §4 C18")
 
+claim("C04", "other",
+      "Sufficient condition checked exactly for all 22 Reset impls: field classes (PARAM/STATE/BUFFER/NESTED) are computed from every MIR store in the crate; each `new` and each `reset` is evaluated symbolically (gated terms; fill loops summarised; nested resets kept as step nodes); for each of the 66 non-parameter fields the value after reset() must equal the constructor's value with parameters substituted, on every path; parameter fields are never written after construction; reset() reads no state (idempotence). With determinism (C05) equal fields give bit-identical futures for every history, including NaN/inf histories.",
+      "Trusted: the symbolic evaluator (engine/py/symex.py) and its accepted reset idioms (field assignment, range fill loop, slice::fill); anything else is reported as UNRECOGNISED. Decides state equality, not observed outputs.",
+      "field-class inference + gated symbolic evaluation of new/reset over MIR", "DESIGN.md §4 C04")
+claim("C11", "other",
+      "All clauses are about which constant or parameter reaches which place. Every constructor is evaluated symbolically with nested constructors inlined and `?` resolved, giving a closed gamma term: it must be Err(InvalidParameter) iff some usize argument is 0 (all 2^n zero/non-zero patterns), branch on nothing else, and reach no MIR Assert or panicking callee (so usize::MAX cannot panic). period()/multiplier() must return the field initialised from the argument; Display is checked from the AST format_args node (literal pieces, plain {} placeholders) with arguments resolved in MIR to the constructor parameters in order; default() must equal new(<documented constants>).",
+      "Trusted: the symbolic evaluator; the NAME and default tables transcribed from the property statement; allocation failure for huge windows is outside the property.",
+      "gated symbolic evaluation of constructors/accessors/Default + AST format_args rules", "DESIGN.md §4 C11")
+claim("C16", "other",
+      "build() touches its five Option<f64> payloads only through comparisons, so its behaviour on all of f64^5 is determined by the comparison set and how outcomes are combined. The gated term of build() is evaluated for all 32 presence patterns (Incomplete before any value comparison) and all 64 outcomes of the six comparisons (exactly the six non-strict ones, Ok iff all hold, Invalid otherwise, hence NaN rejected); setters write only their own field and return self; the aggregate and the five getters are wired to the same-named fields; DataItem derives Clone and PartialEq. Complete for this function.",
+      "Trusted: the symbolic evaluator; IEEE comparison semantics. A rewrite through iterator combinators is not recognised and fails closed.",
+      "gated symbolic evaluation of build() + exhaustive evaluation of its comparison structure", "DESIGN.md §4 C16")
+
 _PENDING = "claimed in DESIGN.md but its checker is not built yet in this commit; listed here until the check exists (see DESIGN.md §7 build order)"
-for _p in ["C02", "C03", "C04", "C07", "C08", "C09", "C10", "C11", "C12", "C14", "C15", "C16", "C17"]:
+for _p in ["C02", "C03", "C07", "C08", "C09", "C10", "C12", "C14", "C15", "C17"]:
     NA[_p] = _PENDING
 NA["C01"] = "numeric equality (within tau) of incremental window statistics with recomputation over runtime values: needs inductive array invariants plus floating-point error analysis, which no dataflow/typestate/shape analysis in reach delivers; a rule pinning the update expressions would be a frozen source fragment (DESIGN.md §4 C01)"
 NA["C13"] = "bounds accumulated floating-point rounding error after up to 2e6 data-dependent updates; no static analysis in reach bounds rounding drift, and the only structural ingredient (all accumulators are f64) is too weak to carry the property (DESIGN.md §4 C13)"
